@@ -43,12 +43,27 @@ fn naive_memchr(x: u8, text: &[u8]) -> Option<usize> {
 #[kani::stub(alloc::fmt::format, no_format)]
 #[kani::stub(core::slice::memchr::memchr, naive_memchr)]
 fn c12_error_position() {
-    let sc = draw(&mut KSrc);
+    error_position(4);
+}
+
+#[kani::proof]
+#[kani::unwind(10)]
+#[kani::stub(crate::varlink_grammar::ParseInterface, parse_stub)]
+#[kani::stub(std::hash::RandomState::new, fixed_random_state)]
+#[kani::stub(alloc::fmt::format, no_format)]
+#[kani::stub(core::slice::memchr::memchr, naive_memchr)]
+fn c12_error_position_len6() {
+    error_position(6);
+}
+
+fn error_position(n: usize) {
+    let sc = draw(&mut KSrc, n);
     unsafe { FAIL_POS = sc.pos };
-    let text = unsafe { std::str::from_utf8_unchecked(&sc.text) };
+    let bytes = &sc.text[..n];
+    let text = unsafe { std::str::from_utf8_unchecked(bytes) };
     let r = IDL::try_from(text);
-    let (start, end, col) = line_of(&sc.text, sc.pos);
-    kani::cover!(start > 0 && end < TLEN, "error on an inner line");
+    let (start, end, col) = line_of(bytes, sc.pos);
+    kani::cover!(start > 0 && end < n, "error on an inner line");
     match &r {
         Err(Error::Parse { line, column }) => {
             let l = line.as_bytes();
